@@ -905,6 +905,10 @@ def _collect_transpose_elementwise_chain(
         visited_values.add(val)
         if _is_scalar_const_value(val):
             continue
+        if val.is_graph_output():
+            # The rewrite re-lays-out every value on the chain; a value that is
+            # itself a model output must keep its producer and its layout.
+            return None
         producer = _producer_node(nodes, val)
         if producer is None:
             return None
@@ -950,6 +954,9 @@ def _collect_transpose_elementwise_forest(
         visited_values.add(val)
         if _is_scalar_const_value(val):
             continue
+        if val.is_graph_output():
+            # See _collect_transpose_elementwise_chain: observed values keep their layout.
+            return None
         producer = _producer_node(nodes, val)
         if producer is None:
             return None
@@ -1195,6 +1202,10 @@ def _collect_add_transpose_forest(
         out = _node_output(node)
         if out is None:
             return None
+        if out.is_graph_output():
+            # Lifting the forest changes the layout of every Add result; a result
+            # that is itself a model output must keep the transposed layout.
+            return None
         consumers = _consumer_nodes(nodes, out)
         for consumer in consumers:
             if consumer.op_type == "Add":
@@ -1376,6 +1387,10 @@ def remove_redundant_transpose_pairs_ir(graph: ir.Graph) -> None:
 
                 out = _node_output(cur)
                 if out is None:
+                    ok = False
+                    break
+                if out.is_graph_output():
+                    # An observed Add result must keep its (transposed) layout.
                     ok = False
                     break
                 consumers = _consumer_nodes(nodes, out)
@@ -1661,6 +1676,15 @@ def remove_redundant_transpose_pairs_ir(graph: ir.Graph) -> None:
                         T2 = m
                     break
                 if T2 is None:
+                    i += 1
+                    continue
+                if any(
+                    (chain_out := _node_output(chain_node)) is not None
+                    and chain_out.is_graph_output()
+                    for chain_node in [T1, *allowed_nodes]
+                ):
+                    # Folding re-lays-out (or removes) every value between the two
+                    # transposes; values that are model outputs must stay as they are.
                     i += 1
                     continue
                 perm1 = _transpose_perm(T1)
